@@ -430,6 +430,17 @@ def check_C17(ctx):
     rng = random.Random(ctx.seed * 1000 + 17)
     bench = Bench(ctx)
     scens = [s for s in small_scope(rng, sizes(ctx, 40, 500))] + [Scen(gen_tree(rng, max_tests=8)) for _ in range(sizes(ctx, 50, 1200))]
+    # the same under run_single_test(): one test by name, nested at any depth
+    for sc in list(scens[:sizes(ctx, 40, 400)]):
+        tests = [t for _, t in sc.root.tests()]
+        names = [t.name for t in tests]
+        if not tests or len(set(names)) != len(names):
+            continue
+        t = rng.choice(tests)
+        if any(a[0] in "KEUZ" for a in t.acts()):
+            continue
+        c = sc.copy(); c.mode = "single:" + t.name; c.kill = None
+        scens.append(c)
     reps = REPORTERS_ALL
     models = run_model_scenarios([s.text() for s in scens])
     obs = bench.run_many([(s.text(), r) for s in scens for r in reps])
@@ -1918,6 +1929,11 @@ def check_C14(ctx):
                     scens.append(Scen(root, mode=mode)); envs.append({"CGREEN_PER_TEST_TIMEOUT": "1"} if how == "env" else {}); labels.append(f"{mode}, position {pos}, {len(pre)} results delivered, limit by {how}")
                     if (pos + len(pre)) % 2 == 0:
                         scens.append(Scen(root, mode=mode)); envs.append(dict(envs[-1], CGREEN_CHILD_EXIT_WITH__EXIT="1")); labels.append(labels[-1] + ", CGREEN_CHILD_EXIT_WITH__EXIT set")
+    # an earlier test (or the code it tests) leaves SIGALRM ignored: every test still gets a working limit of its own
+    for mode in ("fork", "inproc", "single:slow"):
+        for how, env in (("env", {"CGREEN_PER_TEST_TIMEOUT": "1"}), ("die_in", {})):
+            root = S("top", items=[T("poller", body=["IA", "P"]), T("b", body=["P"]), T("slow", body=["P", "Z" if how == "env" else "ZD"])])
+            scens.append(Scen(root, mode=mode)); envs.append(env); labels.append(f"{mode}, an earlier test leaves SIGALRM ignored, limit by {how}")
     # slow context setup (the limit covers the fixtures too)
     for mode in ("fork", "single:slow"):
         scens.append(Scen(S("top", items=[T("slow", ctx=1, setup=["Z"], body=["P"]), T("b", body=["P"])]), mode=mode)); envs.append({"CGREEN_PER_TEST_TIMEOUT": "1"}); labels.append(f"{mode}, overrun in the context's setup")
